@@ -252,11 +252,44 @@ def check(cfg, ops, seed, counters):
     from harness.props import c01
     vio = []
     sess = driver.replay(cfg, ops, seed)
+    # boot files read through every name on the object that is about to master the image (before
+    # anything forced a layout): the same bytes as the model's content apart from the boot info table
+    live_reads = {}
+    if sess.model.boot is not None and seed % 3 != 0:
+        import io as _io0
+        for e_ in sess.model.boot['entries']:
+            for ns_, p_ in sess.model.names_of(e_['cid']):
+                buf = _io0.BytesIO()
+                try:
+                    sess.iso.get_file_from_iso_fp(buf, **{'%s_path' % ns_: p_})
+                    live_reads[(ns_, p_)] = buf.getvalue()
+                    counters['live_bootfile_reads'] = counters.get('live_bootfile_reads', 0) + 1
+                except Exception as ex:
+                    vio.append({'key': 'bootfile:%s:live-read-raises:%s' % (ns_, type(ex).__name__), 'detail': '%s before the first write: %s' % (p_, ex)})
     img, oc = sess.write()
     if not oc.ok:
         sess.close()
-        return [{'key': 'write-raises:%s@%s' % (oc.exc_class, oc.exc_where), 'detail': oc.exc_msg}], None
+        return vio + [{'key': 'write-raises:%s@%s' % (oc.exc_class, oc.exc_where), 'detail': oc.exc_msg}], None
     data = img.getvalue()
+    if live_reads:
+        # one content, whatever name it is read through
+        by_cid = {}
+        for e_ in sess.model.boot['entries']:
+            for nm in sess.model.names_of(e_['cid']):
+                if nm in live_reads:
+                    by_cid.setdefault(e_['cid'], {})[nm] = live_reads[nm]
+        for cid_, reads in by_cid.items():
+            if len({v for v in reads.values()}) > 1:
+                vio.append({'key': 'bootfile:live-read:names-disagree', 'detail': 'content %r read before the first write differs between its names %s' % (cid_, sorted(reads)[:3])})
+        dec0 = common.decode_all(data)
+        for (ns_, p_), got in live_reads.items():
+            vol = {'iso': dec0['ecma'].pvd, 'joliet': dec0['ecma'].joliet}.get(ns_)
+            node = vol.tree.get(p_) if vol is not None else None
+            if node is not None and node.kind == 'file':
+                from harness.indep import ecma119 as _e
+                stored = _e.read_file(data, node)
+                if got != stored and not (sess.model.relocation_active()):
+                    vio.append({'key': 'bootfile:%s:live-read-differs' % ns_, 'detail': '%s read before the first write (%d bytes) differs from the bytes then stored (%d bytes)' % (p_, len(got), len(stored))})
     # the catalog through every one of its names on the object that mastered the image
     if sess.model.boot is not None:
         import io as _io
